@@ -1,3 +1,6 @@
+module String = Stdlib.String
+module List = Stdlib.List
+module Char = Stdlib.Char
 (* Minimal S-expression reader: atoms, "strings" with escapes, lists. One value per line. *)
 type t = A of string | S of string | L of t list
 
